@@ -1,5 +1,6 @@
 import M3d.Basic
 import M3d.Model.RenderSampling
+import M3d.Gen.ReflectAmount
 /-!
 Line-protocol handler for C19.  Core-only.
 
@@ -75,6 +76,11 @@ def ov (v : V3 Float) : String := s!"{sf v.x},{sf v.y},{sf v.z}"
 def kSchlick : P String := do
   let ior ← fl; let n ← v3; let s ← v3; done
   pure (sf (reflectAmount ior n s))
+
+/-- The definition regenerated from the Go source, on the same inputs (cross-checks the translator). -/
+def kSchlickGen : P String := do
+  let ior ← fl; let n ← v3; let s ← v3; done
+  pure (sf (M3d.Gen.ReflectAmount.reflectAmount ior n s))
 
 def kRefr : P String := do
   let ior ← fl; let n ← v3; let s ← v3; done
@@ -219,7 +225,7 @@ def kSelGrid : P String := do
   pure (",".intercalate (counts.map toString))
 
 def kinds : List (String × P String) := [
-  ("schlick", kSchlick), ("refr", kRefr), ("rsamp", kRSamp false), ("rsampd", kRSamp true),
+  ("schlick", kSchlick), ("schlickg", kSchlickGen), ("refr", kRefr), ("rsamp", kRSamp false), ("rsampd", kRSamp true),
   ("rdens", kRDens false), ("rddens", kRDens true), ("rbsdf", kRBsdf),
   ("lsamp", kLSamp false), ("lsampd", kLSamp true), ("ldens", kLDens false), ("lddens", kLDens true),
   ("lbsdf", kLBsdf), ("adsamp", kAdSamp), ("addens", kAdDens), ("psamp", kPSamp), ("pdens", kPDens),
